@@ -42,7 +42,7 @@ Definition node_good (m : node U) : Prop :=
     /\ forall (kp : U -> nat) (dn : list U), (forall d e, In (Some d, e) prs -> In d dn) ->
          exists Inv : rnode -> Prop,
            Inv (init_node U m)
-           /\ (forall a y b, Inv a -> fL (cls_of U m) a y = Some b -> Inv b)
+           /\ (forall a y b, In y (Xabs kp m prs) -> Inv a -> fL (cls_of U m) a y = Some b -> Inv b)
            /\ (forall x y, In x (Xabs kp m prs) -> In y (Xabs kp m prs) -> sens U m (fst x) = false ->
                  forall a, Inv a -> step2 _ _ (fL (cls_of U m)) a x y = step2 _ _ (fL (cls_of U m)) a y x)
            /\ exists N, fold_opt (fL (cls_of U m)) (Xabs kp m prs) (init_node U m) = Some N /\ node_sim U dn kp m N.
@@ -302,7 +302,9 @@ Proof.
   rewrite (fold_perm rnode ev (fE m) (sensE m) Inv) with (X := X).
   - unfold X, Xabs. rewrite !fold_opt_map. apply fold_opt_ext. intros N' p Hpp. apply filter_In in Hpp as [Hp1 _].
     apply (fE_pair u m sn prs p N' Hu Hm Hsn Hp Hp1).
-  - intros a y b Ha Hy. apply (Histep a (e_cond (fst y), tgt_dest U ueqb ns tmp (snd y)) b Ha Hy).
+  - intros a y b Hin' Ha Hy. destruct (HX a y Hin') as (p & Hp1 & Hp2 & -> & Ep). rewrite Ep in Hy.
+    apply (Histep a (e_cond (snd p), dest_of U kp (fst p)) b); [|exact Ha|exact Hy].
+    unfold Xabs. apply in_map_iff. exists p. split; [reflexivity|]. apply filter_In. auto.
   - intros x y Hx Hy Hs a Ha. unfold step2, obind.
     destruct (HX a x Hx) as (p & Hp1 & Hp2 & -> & Ep). destruct (HX a y Hy) as (q & Hq1 & Hq2 & -> & Eq).
     assert (Ip : In (e_cond (snd p), dest_of U kp (fst p)) (Xabs kp m prs)).
@@ -352,4 +354,57 @@ Proof.
 Qed.
 
 End Core.
+(* ---------------------------------------------------------------- the exported rows (string ids) *)
+Lemma Rf_of_state (s : st) nodesR : s_nodes s = nodesR -> to_flow s = Rf nodesR.
+Proof. intros <-. reflexivity. Qed.
+
+Theorem means_rows nb ns n0 rest rows :
+  ns = n0 :: rest -> (forall m, In m ns -> node_good m) -> order_ok U ueqb ns = true ->
+  to_rows ueqb nb ns = Ok rows ->
+  exists ref, rowsem nab (abs_rows U ustr strip rows) = Some ref
+    /\ (forall t, traces (flow_of U ustr ns) t -> exists t', traces ref t' /\ Forall2 (ematch sexp lmF) t t')
+    /\ (forall t, traces ref t -> exists t', traces (flow_of U ustr ns) t' /\ Forall2 (ematch sexp lmR) t t').
+Proof.
+  intros Hns Hgood Hord Hrows.
+  pose proof (to_rows_ids_nonempty U ueqb ueqb_spec nb ns rows Hrows) as Hne.
+  destruct (to_rows_relabelling U ueqb ueqb_spec nb ns rows Hrows) as (tmp & f & Htmp & Erows & Hfs & Hnd & Hrefs & _).
+  pose proof Htmp as Htmp'. rewrite Hns in Htmp'. destruct (to_rows_tmp_facts U ueqb ueqb_spec n0 rest tmp Htmp') as (done & Hf). rewrite <- Hns in Hf.
+  destruct (means_core ns n0 rest tmp done Hns Htmp Hf Hgood Hord) as (nodesR & Hsem & Ht1 & Ht2).
+  assert (HP : forall a b, In a (TStart :: map (@r_id U tidU) tmp) -> In b (TStart :: map (@r_id U tidU) tmp) -> f a = f b -> a = b).
+  { intros a b Ha Hb. apply (NoDup_map_eq f _ a b Hnd Ha Hb). }
+  assert (Hids : forall r, In r tmp -> f (r_id r) <> []).
+  { intros r Hr. rewrite Forall_forall in Hne. specialize (Hne (relabel U f r)). cbn [relabel r_id] in Hne. apply Hne.
+    rewrite Erows. apply in_map, Hr. }
+  assert (Hstart : ~ In TStart (map (@r_id U tidU) tmp)).
+  { intros H. pose proof (sf_idok _ _ _ _ _ _ Hf) as Hok. rewrite Forall_forall in Hok. apply (Hok _ H). }
+  assert (Hallowed : forall r t, In r tmp -> In t (row_refs U r) -> t = TStart \/ In t (map (@r_id U tidU) tmp)).
+  { intros r t Hr Ht. unfold Refs, RefsI in Hrefs. rewrite Forall_forall in Hrefs. specialize (Hrefs r Hr). rewrite Forall_forall in Hrefs.
+    destruct (Hrefs t Ht) as [H|[H|[]]]; auto. }
+  (* the flat sheet over strings *)
+  set (FR := map (frow_map f) (map (fabs_row U ustr strip) tmp)).
+  assert (Hsem' : fsem str_eqb nab FR = Some nodesR).
+  { rewrite <- Hsem. unfold FR.
+    apply (fsem_rename tidU str teqb str_eqb (tid_eqb_eq U ueqb ueqb_spec) str_eqb_eq nab f (fun t => In t (TStart :: map (@r_id U tidU) tmp)) HP).
+    apply Forall_forall. intros fr Hfr. apply in_map_iff in Hfr as (r & <- & Hr). unfold row_ids, fabs_row. cbn [fr_id fr_kind fr_edges].
+    constructor; [right; apply in_map, Hr|]. apply Forall_app. split.
+    - apply Forall_forall. intros t Ht. assert (Hg : In t (r_goto r)).
+      { unfold abs_kind, kind_ids in Ht. destruct (str_eqb (r_type r) t_go_to); [exact Ht|]. destruct (str_eqb (r_type r) t_loose_exit); [contradiction|].
+        destruct (abs_nkind U (r_type r) (r_pay r)) as [[c a] d]. contradiction. }
+      destruct (Hallowed r t Hr) as [H|H]; [unfold row_refs; apply in_or_app; right; exact Hg|left; auto|right; exact H].
+    - apply Forall_forall. intros t Ht. apply in_flat_map in Ht as (fe & Hfe & Ht). apply in_map_iff in Hfe as (e & <- & He).
+      unfold fabs_edge in Ht. cbn [fe_from] in Ht. destruct (e_from e) as [|u0 s0|k0 s0] eqn:Ee; cbn [fabs_from from_ids] in Ht; [contradiction| |];
+        destruct Ht as [<-|[]]; (destruct (Hallowed r (e_from e) Hr) as [H|H]; [unfold row_refs; apply in_or_app; left; apply in_map, He|rewrite Ee in H; discriminate|right; rewrite <- Ee; exact H]). }
+  destruct (fsem_rowsem nab FR nodesR) as (s & Hrun & Hs); [|exact Hsem'|].
+  { apply Forall_forall. intros fr Hfr. unfold FR in Hfr. rewrite map_map in Hfr. apply in_map_iff in Hfr as (r & <- & Hr).
+    unfold id_ok, frow_map, fabs_row. cbn [fr_id]. apply (Hids r Hr). }
+  assert (Eabs : abs_rows U ustr strip rows = map to_rsrow FR).
+  { unfold abs_rows, FR. rewrite Erows, !map_map. apply map_ext_in. intros r Hr. apply (abs_row_relabel U ustr strip f Hfs).
+    apply Forall_forall. intros e He. unfold tid_ok.
+    destruct (Hallowed r (e_from e) Hr) as [H|H]; [unfold row_refs; apply in_or_app; left; apply in_map, He|left; exact H|right].
+    apply in_map_iff in H as (r' & Er' & Hr'). rewrite <- Er'. split; [apply (Hids r' Hr')|].
+    intros Heq. rewrite <- Hfs in Heq. apply HP in Heq; [|right; apply in_map, Hr'|left; reflexivity].
+    apply Hstart. rewrite <- Heq. apply in_map, Hr'. }
+  exists (to_flow s). split; [unfold rowsem; rewrite Eabs, Hrun; reflexivity|]. rewrite (Rf_of_state s nodesR Hs). split; assumption.
+Qed.
+
 End Main.
